@@ -12,11 +12,20 @@ Cache part
      write_error handler, injected device write failures through iotrace.so).  Every logged call (arguments,
      return code, returned tags, the 8 cache slots + LRU order via hook H1, handler calls, device events, backing
      file content) is validated by TLC against Trace_UnixIoCache.
+ (2b) Managers stacked on the unix channel (undo_io): spec/StackedIo.tla states the property once more for the caller of
+     the wrapper (OuterCoherent, OuterDurable, OuterLogical, OuterErrorReported, OuterCloseClean) over a transcription
+     of undo_io.c's entry points as sequences of nested calls on the real channel and on the undo file.  TLC model-checks
+     it with device failures in every nested call while the undo file is fine, and the other way round
+     (MC_StackedIo).  Histories on the undo channel are logged call by call (o_begin, nested calls, calls on the undo
+     file, o_end) and validated against the same machine; write failures are injected at fault positions enumerated
+     from the spec's catalogue FaultCells = entry point x store hit first (Emit_StackedIo).
 Thread part
  (3) TLC model-checks spec/BitmapLoad.tla (partition formula, lock protocol, all interleavings, termination).
  (4) harness/bmload.c loads the bitmaps of images with 1..40 groups with 1..16 threads under schedule
-     perturbation; bitmaps and flags must equal the single-threaded load and hook H3's events must be a
-     behaviour of Trace_BitmapLoad."""
+     perturbation; error code, presence and content of the bitmaps and flags must equal the single-threaded load and
+     hook H3's events must be a behaviour of Trace_BitmapLoad.  The images include damaged ones (bad block / inode
+     bitmap checksum, unreadable bitmap block, truncated image) with the damage in a group owned by the first, a middle
+     and the last thread: the catalogue is BitmapLoad!FailPos x DamageKinds, enumerated by Emit_BitmapLoad."""
 import os, sys, json, random, shutil, subprocess, time, hashlib
 from common import VERIF, fast_tmp, seed, die_broken, NPROC, tool_env
 import build, tlc as T, tracecheck
@@ -40,10 +49,14 @@ CONFIGS = {
     "offset":   dict(wt=0, bounce=0, handler=0, undo=0, dio=0, off=3, nocache=0),
     "undo":     dict(wt=0, bounce=0, handler=0, undo=1, dio=0, off=0, nocache=0),
     "undo_wt":  dict(wt=1, bounce=0, handler=1, undo=1, dio=0, off=0, nocache=0),
+    "undo_h":   dict(wt=0, bounce=0, handler=1, undo=1, dio=0, off=0, nocache=0),
     "dio":      dict(wt=0, bounce=0, handler=0, undo=0, dio=1, off=0, nocache=0),
 }
 PLAIN_ORDER = ["cached", "handler", "nocache", "wt", "bounce", "offset", "undo", "cached", "bounce_h", "undo_wt", "dio", "cached"]
 FAULT_ORDER = ["cached", "handler", "wt", "bounce", "bounce_h", "handler", "nocache", "cached"]
+UNDO_ORDER = ["undo", "undo_h", "undo_wt"]
+# outer entry point -> the value of the generator's choice variable that selects it
+FAVOR_K = {"read": 0.1, "write": 0.4, "wbyte": 0.65, "zero": 0.72, "discard": 0.78, "flush": 0.83, "blksize": 0.88, "cacheoff": 0.945, "close": 0.97}
 
 
 def reset_line(cfg):
@@ -52,9 +65,10 @@ def reset_line(cfg):
         NG, c["wt"], c["bounce"], c["handler"], c["undo"], c["dio"], c["off"], c["nocache"])
 
 
-def gen_behaviour(rng, cfg, nops):
+def gen_behaviour(rng, cfg, nops, favor=None):
     """A history inside the preconditions: arguments in range; while the cache is switched off by set_option and
-    may still hold entries only non-modifying calls are issued (what rw_bitmaps.c does)."""
+    may still hold entries only non-modifying calls are issued (what rw_bitmaps.c does).  favor: an operation that is
+    chosen more often (to reach a given fault cell)."""
     c = CONFIGS[cfg]
     lines = [reset_line(cfg)]
     bs = 2                      # granules per block
@@ -90,6 +104,8 @@ def gen_behaviour(rng, cfg, nops):
                 b = (NG - (-cnt)) // bs
             return b
         k = rng.random()
+        if favor in FAVOR_K and n > 3 and rng.random() < 0.3:
+            k = FAVOR_K[favor]
         if toggled_off:
             # read-only phase
             if k < 0.7:
@@ -145,7 +161,8 @@ def run_driver(drv, behaviours, workdir, tag="p", fail=None, timeout=1800):
     io = os.path.join(d, "io.ndjson")
     if os.path.exists(io):
         os.unlink(io)
-    env = {"PATH": "/usr/bin:/bin", "LC_ALL": "C", "LD_PRELOAD": IOTRACE, "VERIF_IOTRACE_TARGET": "dev.img",
+    # target 0 = the device, target 1 = the undo file (iotrace.so numbers the write-class calls on both in one sequence)
+    env = {"PATH": "/usr/bin:/bin", "LC_ALL": "C", "LD_PRELOAD": IOTRACE, "VERIF_IOTRACE_TARGET": "dev.img:dev.img.e2undo",
            "VERIF_IOTRACE_OUT": io}
     if fail:
         env["VERIF_FAIL_WRITE"] = str(fail[0]); env["VERIF_FAIL_COUNT"] = str(fail[1])
@@ -155,6 +172,14 @@ def run_driver(drv, behaviours, workdir, tag="p", fail=None, timeout=1800):
         except subprocess.TimeoutExpired:
             return None, "iodrv timed out"
     lines = open(out).read().splitlines()
+    run_driver.io_events = []
+    try:
+        for x in open(io):
+            if '"n":' in x:
+                d = json.loads(x)
+                run_driver.io_events.append((d["n"], d["tgt"], d["e"], d.get("fail", 0)))
+    except (OSError, ValueError):
+        pass
     for fn in ("dev.img", "dev.img.e2undo", "io.ndjson"):
         try: os.unlink(os.path.join(d, fn))
         except OSError: pass
@@ -163,10 +188,14 @@ def run_driver(drv, behaviours, workdir, tag="p", fail=None, timeout=1800):
     return lines, None
 
 
+def outer_line(ln):
+    return ln.startswith('{"e":"o_') or ln.startswith('{"e":"u_')
+
+
 def count_write_events(trace_lines):
     n = 0
     for ln in trace_lines:
-        if ln.startswith('{"e":"o_'):
+        if outer_line(ln):
             continue
         n += len(json.loads(ln).get("ev", []))
     return n
@@ -183,7 +212,7 @@ def nontrivial(tl):
     evict = overlap = False
     prev = None
     for ln in tl:
-        if ln.startswith('{"e":"o_'):
+        if outer_line(ln):
             continue
         d = json.loads(ln)
         e = d["e"]
@@ -284,6 +313,79 @@ def model_check_cache(ev, vd, tier, work):
 
 
 # ------------------------------------------------------------------------------------------------ conformance
+def validate_capped(behaviours, module, cfg, workdir, chunk_lines, jobs, timeout, cap=10):
+    """tracecheck.validate with a bound on the work after failures: a failing chunk is continued behind its first rejected
+    behaviour as ONE new chunk (not one process per behaviour), and the search stops once `cap` behaviours have been
+    rejected (the verdict is a violation by then; the behaviours not looked at are not counted as validated).
+    Returns dict(failures=[behaviour indices], broken=[...], distinct, generated, unchecked=n)."""
+    import concurrent.futures as cf
+    chunks, cur, curlen = [], [], 0
+    for bi, b in enumerate(behaviours):
+        if cur and curlen + len(b) > chunk_lines:
+            chunks.append(cur); cur = []; curlen = 0
+        cur.append(bi); curlen += len(b)
+    if cur:
+        chunks.append(cur)
+    failures, broken, tot_d, tot_g, rnd, unchecked = [], [], 0, 0, 0, 0
+    while chunks:
+        rnd += 1
+        tasks = []
+        for ci, ch in enumerate(chunks):
+            pth = os.path.join(workdir, "vc_%d_%05d.ndjson" % (rnd, ci))
+            n = 0
+            with open(pth, "w") as f:
+                for bi in ch:
+                    for ln in behaviours[bi]:
+                        f.write(ln if ln.endswith("\n") else ln + "\n"); n += 1
+            tasks.append((module, cfg, pth, n, timeout, False))
+        with cf.ThreadPoolExecutor(max_workers=jobs) as ex:
+            res = list(ex.map(tracecheck._run_chunk, tasks))
+        nxt = []
+        for ch, r in zip(chunks, res):
+            tot_d += r["distinct"]; tot_g += r["generated"]
+            if r["accepted"]:
+                continue
+            if r["error"] and r["violated"] is None:
+                broken.append(r); continue
+            m = r["matched"] if r["matched"] is not None else 0
+            pos = 0; hit = None
+            for bi in ch:
+                if m < pos + len(behaviours[bi]):
+                    hit = bi; break
+                pos += len(behaviours[bi])
+            if hit is None:
+                hit = ch[-1]
+            failures.append(hit)
+            rest = ch[ch.index(hit) + 1:]
+            if rest:
+                nxt.append(rest)
+        if len(failures) >= cap:
+            unchecked = sum(len(c) for c in nxt)
+            break
+        chunks = nxt
+    return dict(failures=failures, broken=broken, distinct=tot_d, generated=tot_g, unchecked=unchecked)
+
+
+def stacked_catalogue(work):
+    """Fault positions for histories on the undo_io wrapper, enumerated by the specification (Emit_StackedIo)."""
+    out = os.path.join(work, "stacked_catalogue.json")
+    r = T.tlc(os.path.join(SPEC, "Emit_StackedIo.tla"), os.path.join(SPEC, "Emit_StackedIo.cfg"), workers=1, timeout=300, env={"OUT": out}, xmx="1g")
+    if not os.path.exists(out):
+        die_broken("TLC could not enumerate the fault catalogue (Emit_StackedIo): %s\n%s" % (r.error, r.out[-1500:]))
+    return json.load(open(out))
+
+
+def outer_windows(tl):
+    """[(op, first event number, last event number)] of the calls made on the wrapper, from the o_begin / o_end lines."""
+    out, op, n0 = [], None, 0
+    for ln in tl:
+        if ln.startswith('{"e":"o_begin"'):
+            d = json.loads(ln); op = d["op"]; n0 = d["n0"]
+        elif ln.startswith('{"e":"o_end"'):
+            out.append((op, n0 + 1, json.loads(ln)["n1"]))
+    return out
+
+
 def validate_and_report(vd, ev, behaviours, traces, work, what, literal=False):
     mod = os.path.join(SPEC, "Trace_UnixIoCache.tla")
     cfg = os.path.join(SPEC, "Trace_UnixIoCache_literal.cfg" if literal else "Trace_UnixIoCache.cfg")
